@@ -725,6 +725,33 @@ def run(tier, seed, replay=None):
         if f['n_apply'] != f['n_models'] or f.get('apply_missing'):
             R.violation({'sql': sql, 'catalog': cname, 'what': f'{f["n_models"]} model references but {f["n_apply"]} apply-predictor steps'})
             break
+    # ---- sources that are sub-selects which cut or group their rows (LIMIT / OFFSET / DISTINCT / GROUP BY): the model's input is the
+    # result of THAT sub-select, so what is fetched for it is what the sub-select alone fetches -- no condition of the outer query
+    # may move below the cut
+    if not replay:
+        from mindsdb_sql import parse_sql as _ps
+        from mindsdb_sql.planner import plan_query as _pq
+        from mindsdb_sql.planner.steps import FetchDataframeStep as _F
+        nsub = 0
+        sub_rep = 0
+        for inner in ('select * from int1.t1 limit 3', 'select * from int1.t1 where a > 0 limit 3', 'select * from int1.t1 order by b limit 2 offset 1',
+                      'select a, b from int1.t1 limit 2', 'select distinct a from int1.t1', 'select a, count(*) as n from int1.t1 group by a',
+                      'select * from int1.t1 limit 0', 'select * from int1.t1 offset 2'):
+            for ow in ('', ' where s.a = 1', ' where s.a = 1 and m.b = 2', ' where m.b = 2 and s.a > 1 and s.a < 5', ' where s.a in (1, 2)'):
+                for mref in ('proj.pred as m', 'proj.pred2 as m'):
+                    sql = f'select * from ({inner}) as s join {mref}{ow}'
+                    try:
+                        alone = [str(x.query) for x in _pq(_ps(inner, 'mindsdb'), **copy.deepcopy(catd['names'])).steps if isinstance(x, _F)]
+                        got = [str(x.query) for x in _pq(_ps(sql, 'mindsdb'), **copy.deepcopy(catd['names'])).steps if isinstance(x, _F)]
+                    except Exception:
+                        continue
+                    nsub += 1
+                    if alone and got[:1] != alone[:1] and sub_rep < 2:
+                        sub_rep += 1
+                        R.violation({'sql': sql, 'catalog': 'names', 'fetched_for_the_sub_select': got[:1], 'the_sub_select_alone_fetches': alone[:1],
+                                     'what': 'the rows fetched for a sub-select that cuts or groups its rows are not the rows of that sub-select: '
+                                             'a condition of the outer query was moved below its LIMIT / OFFSET / DISTINCT / GROUP BY'})
+        stats['cutting_sub_selects'] = nsub
     R.obligation('judge: implementation outputs = specification (top-level conjuncts only) except listed findings',
                  not any(not nf for _, nf in R.violations))
     for e in broken:
